@@ -12,7 +12,7 @@ mkdir -p work evidence replays
 python3 tools/rs2v.py "$REPO" coq/Gen || true
 (cd coq && coq_makefile -f _CoqProject -o Makefile >/dev/null && timeout 7200 make -j16 >/dev/null)
 (ulimit -s unlimited 2>/dev/null; cd extract && coqc -Q ../coq Verif Extract.v >/dev/null && ocamlfind ocamlopt -package zarith -linkpkg -O2 -w -a model.mli model.ml main.ml -o model_cli)
-cp "$REPO/Cargo.lock" harness/Cargo.lock
+cp "$REPO/Cargo.lock" harness/Cargo.lock 2>/dev/null || cp /repo/Cargo.lock harness/Cargo.lock   # the lock file is untracked: a git snapshot of the repository has none
 cp "$REPO/rust-toolchain" harness/rust-toolchain
 (cd harness && timeout 7200 cargo build --release --offline >/dev/null 2>&1)
 echo setup ok
